@@ -124,10 +124,61 @@ def writesOp (j : Json) : R Json := do
              ("ds_sort_by", names 7 (.dsSortBy "conds")),
              ("fill", names 0 (.fill "dissimilarities" ["0.0", "0.0", "0.0"]))])
 
+def asCtor (j : Json) : R Ctor := do
+  match (← fld j "ctor" >>= asStr) with
+  | "getitem" => pure (.getitem (← fld j "idx" >>= asList asNat))
+  | "subset" => pure (.subset (← fld j "by" >>= asStr) (← fld j "values" >>= asList asStr))
+  | "subsample" => pure (.subsample (← fld j "by" >>= asStr) (← fld j "values" >>= asList asStr))
+  | "subset_pattern" => pure (.subsetPattern (← fld j "by" >>= asStr) (← fld j "values" >>= asList asStr))
+  | "subsample_pattern" =>
+      pure (.subsamplePattern (← fld j "by" >>= asStr) (← fld j "values" >>= asList asStr))
+  | "copy" => pure .copy
+  | "concat" =>
+      let t ← match fldD j "target" Json.null with
+        | .str s => pure (some s)
+        | _ => pure none
+      pure (.concat (← fld j "others" >>= asList asNat) t
+        (← fld j "descriptors" >>= asDesc) (← fld j "rdm_descriptors" >>= asDesc))
+  | o => throw s!"unknown constructor {o}"
+
+/-- run a constructor of the RDMs family on an observed source heap: the predicted content of
+    the new object, whether the producer is `fresh`, the derived sharing with the sources
+    (`sepB`, for both disciplines) and whether the sources' content is untouched -/
+def ctorOp (j : Json) : R Json := do
+  let h ← asHeap j
+  let a ← fld j "root" >>= asNat
+  let srcs ← fld j "srcs" >>= asList asNat
+  let c ← asCtor j
+  let p := ctorProducer h a c
+  let r := produce h a p
+  pure (obj [("fresh", Json.bool p.fresh),
+             ("specs", ofList (fun (q : String × FieldSpec) =>
+                Json.arr #[Json.str q.1, Json.str q.2.kindName]) p.fields),
+             ("content", ofContent (content r.1 r.2)),
+             ("sep", Json.bool (sepB .rebind r.1 srcs [r.2] && sepB .assignInto r.1 srcs [r.2])),
+             ("shared", Json.arr (sharedReport .assignInto r.1 "src" srcs [r.2] ++
+                                  sharedReport .assignInto r.1 "res" [r.2] srcs).toArray),
+             ("sources_unchanged", Json.bool (decide (contentSide r.1 srcs = contentSide h srcs)))])
+
+/-- attribute kinds (fresh / share) of every constructor of the family on the probe object: the
+    model side of the source-text tie `@ctor-specs` -/
+def ctorSpecsOp (_ : Json) : R Json := do
+  let names (c : Ctor) : Json := ofList (fun (q : String × FieldSpec) =>
+    Json.arr #[Json.str q.1, Json.str q.2.kindName]) ((ctorFields probeHeap 0 c).take 4)
+  pure (obj [("__getitem__", names (.getitem [0])),
+             ("subset", names (.subset "index" ["0"])),
+             ("subsample", names (.subsample "index" ["0", "0"])),
+             ("subset_pattern", names (.subsetPattern "cond" ["a", "c"])),
+             ("subsample_pattern", names (.subsamplePattern "cond" ["a", "a"])),
+             ("copy", names .copy),
+             ("concat", names (.concat [] none [] []))])
+
 def handle : Handler := fun op j =>
   match op with
   | "c12.run" => some (runOp j)
   | "c12.writes" => some (writesOp j)
+  | "c12.ctor" => some (ctorOp j)
+  | "c12.ctor_specs" => some (ctorSpecsOp j)
   | _ => none
 
 end Rsa.Drv.C12
